@@ -132,7 +132,9 @@ impl TextDocument {
     }
 }
 
-pub struct Documents(DashMap<String, TextDocument>);
+/// The documents of the workspace, by path, and for every document that has been changed the
+/// version the client gave to its latest change.
+pub struct Documents(DashMap<String, TextDocument>, DashMap<String, i32>);
 
 impl Default for Documents {
     fn default() -> Self {
@@ -142,7 +144,17 @@ impl Default for Documents {
 
 impl Documents {
     pub fn new() -> Self {
-        Documents(DashMap::new())
+        Documents(DashMap::new(), DashMap::new())
+    }
+
+    /// The version the client gave to the latest change of the document, if it has been changed.
+    pub fn client_version(&self, uri: &Url) -> Option<i32> {
+        self.1.get(uri.path()).map(|version| *version)
+    }
+
+    /// Remembers the version the client gave to the latest change of the document.
+    pub fn set_client_version(&self, uri: &Url, version: i32) {
+        self.1.insert(uri.path().to_string(), version);
     }
 
     pub async fn handle_open_file(&self, uri: &Url) {
@@ -210,6 +222,7 @@ impl Documents {
 
     /// Remove the text document.
     pub fn remove_document(&self, url: &Url) -> Result<TextDocument, DocumentError> {
+        self.1.remove(url.path());
         self.remove(url.path())
             .ok_or_else(|| DocumentError::DocumentNotFound {
                 path: url.path().to_string(),
